@@ -27,6 +27,17 @@ def check(ctx, which=None):
     rng = random.Random(ctx.seed * 23 + (9 if which == "C09" else 19))
     n = 240 if thorough else 40
     pairs = [dl.gen_pair(rng) for _ in range(n)]
+    # look-alike identifiers (case-only differences, shared prefixes, non-ASCII letters) in a third of the pairs
+    pairs = [dl.restyle(rng, *p) if i % 3 == 1 else p for i, p in enumerate(pairs)]
+    # the wrapper / worker idiom: two functions whose names differ only in case, one kept, one removed or renamed
+    for fate in ("remove", "rename"):
+        for recv in (None, "T1"):
+            o = [{"name": "Lookup", "shape": "calls", "k": 1, "origin": "w1"}, {"name": "lookup", "shape": "loop", "k": 2, "origin": "w2"},
+                 {"name": "Other", "shape": "branch", "k": 1, "origin": "w3"}]
+            if recv:
+                o = [dict(f, recv=recv) for f in o]
+            nw = [dict(o[1]), dict(o[2])] + ([dict(o[0], name="Find")] if fate == "rename" else [])
+            pairs.append((o, nw))
     # edge cases: empty sides, everything renamed, identical-body twins, same-shape different bodies
     pairs.append(([], [{"name": "A1", "shape": "arith", "k": 1, "origin": "x1"}]))
     pairs.append(([{"name": "F1", "shape": "loop", "k": 1, "origin": "x1"}], []))
